@@ -516,6 +516,7 @@ type FuncContract struct {
 	ChanInvs []chanInvDef
 	Defines  *ECall // `defines result == F(params)`: definitional name of the closure a constructor returns
 	NoVerify bool
+	Abstract bool // postconditions and frame are an abstraction callers use (assumed, listed); the body is still executed and checked against its call-site / return clauses and for run-time safety
 	Flows    []*FlowClause
 	Asset    *AssetSpec // data obligations over embedded files (asset.go)
 }
@@ -569,7 +570,7 @@ func NewSpecSet() *SpecSet {
 
 var clauseKeywords = map[string]bool{"spec": true, "axiom": true, "ghost": true, "func": true, "requires": true, "ensures": true,
 	"modifies": true, "loop": true, "at": true, "maypanic": true, "inline": true, "trusted": true, "pure": true, "check": true,
-	"let": true, "chanmode": true, "chaninv": true, "defines": true, "maintains": true, "thorough": true, "secret": true, "flows": true, "asset": true, "nosafety": true, "guarded": true, "released": true, "unlocked": true, "after": true, "assumed": true, "noverify": true, "ghostparam": true}
+	"let": true, "chanmode": true, "chaninv": true, "defines": true, "maintains": true, "thorough": true, "secret": true, "flows": true, "asset": true, "nosafety": true, "guarded": true, "released": true, "unlocked": true, "after": true, "assumed": true, "noverify": true, "ghostparam": true, "abstract": true}
 
 // ReadSpecFile reads //@ lines. pkgPrefix is prepended to `func` keys that are
 // not already qualified (contract files inside a package use short keys).
@@ -754,6 +755,8 @@ func (ss *SpecSet) ReadSpecFile(path, pkgPrefix string) error {
 				cur.Trusted = true
 			case "noverify":
 				cur.NoVerify = true
+			case "abstract":
+				cur.Abstract = true
 			case "pure":
 				cur.Pure = true
 				cur.HasMod = true
